@@ -134,7 +134,9 @@ var specialDefs = map[string]specialDef{
 	"null": {
 		Make:   func() ast.Type { return ast.Null() },
 		Format: "jsonschema", Doc: jsDoc(`"Root":{"type":"object","properties":{"f":{"type":"null"}}}`),
-		Has: func(t ast.Type) bool { return t.Kind == ast.KindScalar && t.Scalar != nil && t.Scalar.ScalarKind == ast.KindNull },
+		Has: func(t ast.Type) bool {
+			return t.Kind == ast.KindScalar && t.Scalar != nil && t.Scalar.ScalarKind == ast.KindNull
+		},
 	},
 	"mixedenum": {
 		Make: func() ast.Type {
@@ -204,7 +206,9 @@ var specialDefs = map[string]specialDef{
 	"mapbyref": {
 		Make:   func() ast.Type { return ast.NewMap(ast.NewRef("p", "E"), ast.String()) },
 		Format: "cue", Doc: cueDoc("Root: {f: {[E]: string}}\nE: \"a\" | \"b\""),
-		Has: func(t ast.Type) bool { return t.Kind == ast.KindMap && t.Map != nil && t.Map.IndexType.Kind == ast.KindRef },
+		Has: func(t ast.Type) bool {
+			return t.Kind == ast.KindMap && t.Map != nil && t.Map.IndexType.Kind == ast.KindRef
+		},
 	},
 	"mapbyint": {
 		Make:   func() ast.Type { return ast.NewMap(ast.NewScalar(ast.KindInt64), ast.String()) },
